@@ -1,6 +1,8 @@
 import CattrsModel.GenHook.RoundTrip
 import CattrsModel.GenHook.TDLemmas
+import CattrsModel.GenHook.TDLemmas3
 import CattrsModel.GenHook.QuoteLemmas
+import CattrsModel.Props.C10
 /-!
 # C09 — customised generated hooks: emitted key set, round trip, generation never fails
 
@@ -92,8 +94,9 @@ theorem C09_restored_agrees (hc : HookCfg) (rt : Attr → Obj → Obj) (attrs : 
     | none => rw [hd] at he; simp at he
     | some d => rw [hd] at he; exact ⟨d, rfl, rfl, he.2⟩
 
-/-- **TypedDict round trip** (copy-then-patch; both templates; `forbid_extra_keys` off — with it on the same
-follows from `C10_td_forbid_ok_iff` whenever the emitted keys are all accepted).  For a consistent
+/-- **TypedDict round trip, `forbid_extra_keys` off** (copy-then-patch; both templates).  Subsumed by
+`C09_td_roundtrip` (forbid flag quantified) and `C09_td_roundtrip_outcome` below; kept under its name because
+they are derived from it.  For a consistent
 customisation (distinct final keys, no rename onto a declared name — the recorded region F24), an instance
 that has its required keys and no key colliding with a rename target: structuring the output of the
 unstructure hook succeeds, and every handled key is present in the result iff it was present in the
@@ -129,8 +132,8 @@ theorem C09_td_roundtrip_partial (un : UnFn) (unIsId : Option Ty → Bool) (st :
 
 /-- **TypedDict key set** (the part about handled keys): in the output of the unstructure hook, the final key
 (rename | name) of every handled key holds the unstructured entry, and is present iff the entry is present in
-the instance.  (Not stated here: that the *old* name of a renamed / omitted key is gone — it is popped from
-the copy, `dictDel`, which removes it when the instance has no duplicate keys.) -/
+the instance.  (The complete statement — popped names absent, every other key unchanged — is `C09_td_keys`
+below, which needs the instance's keys to be duplicate-free; this part does not.) -/
 theorem C09_td_keys_partial (un : UnFn) (unIsId : Option Ty → Bool) (hc : HookCfg) (attrs : List Attr)
     (inst : List (Obj × Obj))
     (hcons : ConsistentTD hc attrs = true)
@@ -140,6 +143,175 @@ theorem C09_td_keys_partial (un : UnFn) (unIsId : Option Ty → Bool) (hc : Hook
       ∀ a ∈ attrs, tdIncluded hc a = true →
         dlookup out (.str (tdKey hc a)) = (dlookup inst (.str a.name)).map (attrUn un (ovOf hc a) a) :=
   ⟨_, rfl, hunTDSteps_main un unIsId hc inst hid attrs inst (consistentTD_facts hcons).1 (fun _ _ => rfl) hfree⟩
+
+/-- **TypedDict key set, complete** — what the unstructure hook (`res = instance.copy()`, then `pop` / assign per
+attribute) leaves under **every** key `k` of the output, string or not.  For a consistent customisation, an
+instance with no key colliding with a rename target, and duplicate-free instance keys (true of every real
+dict):
+* `k` the final key (rename | name) of a handled attribute `a` ↦ the unstructured entry of `a`, present iff
+  `a.name` is present in the instance;
+* `k` the name of an omitted attribute, or the old name of a renamed one ↦ absent (it was popped);
+* every other key — undeclared keys of the instance, non-string keys — ↦ exactly as in the instance;
+and the keys of the output are again duplicate-free.  The three cases are exhaustive (a handled attribute that
+is not renamed has its own name as final key) and, under `ConsistentTD`, disjoint. -/
+theorem C09_td_keys (un : UnFn) (unIsId : Option Ty → Bool) (hc : HookCfg) (attrs : List Attr)
+    (inst : List (Obj × Obj))
+    (hcons : ConsistentTD hc attrs = true)
+    (hid : ∀ t v, unIsId t = true → un t v = v)
+    (hfree : ∀ a ∈ attrs, tdIncluded hc a = true → ∀ r, (ovOf hc a).rename = some r → dlookup inst (.str r) = none)
+    (hnd : nodupPy (keysOf inst) = true) :
+    ∃ out, hunTD un unIsId hc attrs inst = .dict out ∧
+      (∀ a ∈ attrs, tdIncluded hc a = true →
+        dlookup out (.str (tdKey hc a)) = (dlookup inst (.str a.name)).map (attrUn un (ovOf hc a) a)) ∧
+      (∀ a ∈ attrs, (tdIncluded hc a = false ∨ (ovOf hc a).rename.isSome = true) →
+        dlookup out (.str a.name) = none) ∧
+      (∀ k : Obj, (∀ a ∈ attrs, k ≠ .str a.name ∧ (tdIncluded hc a = true → k ≠ .str (tdKey hc a))) →
+        dlookup out k = dlookup inst k) ∧
+      nodupPy (keysOf out) = true :=
+  ⟨_, rfl, hunTDSteps_keys un unIsId hc inst hid attrs (consistentTD_facts hcons).1 hfree hnd⟩
+
+/-- **Which keys the output has** (corollary of `C09_td_keys`, one line per key): `k` is a key of the output iff
+it is the final key of a handled attribute whose entry is present in the instance, or it is a key of the
+instance that is not a declared name. -/
+theorem C09_td_keys_present (un : UnFn) (unIsId : Option Ty → Bool) (hc : HookCfg) (attrs : List Attr)
+    (inst : List (Obj × Obj))
+    (hcons : ConsistentTD hc attrs = true)
+    (hid : ∀ t v, unIsId t = true → un t v = v)
+    (hfree : ∀ a ∈ attrs, tdIncluded hc a = true → ∀ r, (ovOf hc a).rename = some r → dlookup inst (.str r) = none)
+    (hnd : nodupPy (keysOf inst) = true) :
+    ∃ out, hunTD un unIsId hc attrs inst = .dict out ∧ ∀ k : Obj,
+      ((dlookup out k).isSome = true ↔
+        (∃ a ∈ attrs, tdIncluded hc a = true ∧ k = .str (tdKey hc a) ∧ (dlookup inst (.str a.name)).isSome = true) ∨
+        ((∀ a ∈ attrs, k ≠ .str a.name) ∧ (dlookup inst k).isSome = true)) := by
+  obtain ⟨out, ho, h1, h2, h3, -⟩ := C09_td_keys un unIsId hc attrs inst hcons hid hfree hnd
+  refine ⟨out, ho, fun k => ?_⟩
+  by_cases hA : ∃ a ∈ attrs, tdIncluded hc a = true ∧ k = .str (tdKey hc a)
+  · obtain ⟨a, ha, hi, rfl⟩ := hA
+    rw [h1 a ha hi, Option.isSome_map]
+    constructor
+    · intro h; exact Or.inl ⟨a, ha, hi, rfl, h⟩
+    · rintro (⟨b, hb, hib, hkb, hs⟩ | ⟨hn, hs⟩)
+      · have e2 := h1 b hb hib
+        rw [← hkb, h1 a ha hi] at e2
+        have e3 := congrArg Option.isSome e2
+        simp only [Option.isSome_map] at e3
+        rw [e3]; exact hs
+      · exfalso
+        cases hr : (ovOf hc a).rename with
+        | none => exact hn a ha (by simp [tdKey, hr])
+        | some r =>
+          have hk : tdKey hc a = r := by simp [tdKey, hr]
+          rw [hk, hfree a ha hi r hr] at hs; cases hs
+  · by_cases hB : ∃ a ∈ attrs, k = .str a.name
+    · obtain ⟨a, ha, rfl⟩ := hB
+      have hpop : tdIncluded hc a = false ∨ (ovOf hc a).rename.isSome = true := by
+        cases hi : tdIncluded hc a with
+        | false => exact Or.inl rfl
+        | true =>
+          cases hr : (ovOf hc a).rename with
+          | some r => exact Or.inr rfl
+          | none => exact absurd ⟨a, ha, hi, by simp [tdKey, hr]⟩ hA
+      rw [h2 a ha hpop]
+      constructor
+      · intro h; cases h
+      · rintro (⟨b, hb, hib, hkb, -⟩ | ⟨hn, -⟩)
+        · exact absurd ⟨b, hb, hib, hkb⟩ hA
+        · exact absurd rfl (hn a ha)
+    · have hn : ∀ a ∈ attrs, k ≠ .str a.name := fun a ha e => hB ⟨a, ha, e⟩
+      rw [h3 k (fun a ha => ⟨hn a ha, fun hi e => hA ⟨a, ha, hi, e⟩⟩)]
+      constructor
+      · intro h; exact Or.inr ⟨hn, h⟩
+      · rintro (⟨b, hb, hib, hkb, -⟩ | ⟨-, hs⟩)
+        · exact absurd ⟨b, hb, hib, hkb⟩ hA
+        · exact hs
+
+/-- **TypedDict round trip, outcome with `forbid_extra_keys` on** (both templates).  The forbid check of the
+generated structure hook accepts exactly the final keys of the handled attributes (`allowed_fields`); the
+unstructure hook starts from a copy of the instance, so the keys of the instance that the TypedDict does not
+declare survive into the payload, and they are the only keys the check rejects (names of omitted keys and
+old names of renamed keys were popped).  Hence, for a consistent customisation and an instance with its
+required keys, no key colliding with a rename target and duplicate-free keys: the round trip with the option
+off succeeds (`res`, every handled key restored); with the option **on** it succeeds with the same `res` when
+every key of the instance is a declared name, and otherwise fails with a `ForbiddenExtraKeysError` that
+reports exactly the undeclared keys of the instance (`tdUndeclared`, instance order, non-string keys
+included). -/
+theorem C09_td_roundtrip_outcome (un : UnFn) (unIsId : Option Ty → Bool) (st : StFn) (ci : Nat) (c : GCls)
+    (inst : List (Obj × Obj)) (rt : Attr → Obj → Obj)
+    (hcons : ConsistentTD c.hc c.attrs = true)
+    (hid : ∀ t v, unIsId t = true → un t v = v)
+    (hreq : ∀ a ∈ c.attrs, tdIncluded c.hc a = true → a.required = true → (dlookup inst (.str a.name)).isSome = true)
+    (hfree : ∀ a ∈ c.attrs, tdIncluded c.hc a = true → ∀ r, (ovOf c.hc a).rename = some r → dlookup inst (.str r) = none)
+    (hrt : ∀ a ∈ c.attrs, tdIncluded c.hc a = true → (ovOf c.hc a).sh = none → ∀ v, dlookup inst (.str a.name) = some v →
+      st a.ty (un a.ty v) = .ok (rt a v))
+    (hnd : nodupPy (keysOf inst) = true) :
+    ∃ res, hstTDWith false st ci c (hunTD un unIsId c.hc c.attrs inst) = .ok (.dict res) ∧
+      (∀ a ∈ c.attrs, tdIncluded c.hc a = true →
+        dlookup res (.str a.name) = (dlookup inst (.str a.name)).map (rtWithHooks c.hc rt a)) ∧
+      hstTDWith true st ci c (hunTD un unIsId c.hc c.attrs inst) =
+        (if (tdUndeclared c.attrs inst).isEmpty then .ok (.dict res)
+         else .error (forbidReport c.hc.detailed ci (tdUndeclared c.attrs inst))) := by
+  obtain ⟨res, hoff, hres⟩ := C09_td_roundtrip_partial un unIsId st ci c inst rt hcons hid hreq hfree hrt
+  have hex := extraKeys_hunTDSteps un unIsId c.hc inst c.attrs (consistentTD_facts hcons).1 hfree hnd
+  refine ⟨res, hoff, hres, ?_⟩
+  unfold hunTD at hoff ⊢
+  cases hu : tdUndeclared c.attrs inst with
+  | nil =>
+    rw [hu] at hex
+    simp only [List.isEmpty_nil, if_true]
+    exact (C10_td_forbid_ok_iff st ci c _ _).mpr ⟨hoff, hex⟩
+  | cons x xs =>
+    rw [hu] at hex
+    simp only [List.isEmpty_cons, Bool.false_eq_true, if_false]
+    rw [← hex]
+    exact C10_td_forbid_reports st ci c _ _ hoff (by rw [hex]; exact List.cons_ne_nil _ _)
+
+/-- **TypedDict round trip** (copy-then-patch; both templates; `forbid_extra_keys` **on or off**).  For a
+consistent customisation (distinct final keys, no rename onto a declared name — the recorded region F24), an
+instance that has its required keys and no key colliding with a rename target, and — when the option is on —
+whose keys are duplicate-free (true of every real dict) and all declared by the TypedDict (an undeclared key
+is copied through by the unstructure hook and then rejected by the forbid check: `C09_td_roundtrip_outcome`
+— that hypothesis is necessary): structuring the output of the unstructure hook succeeds, and every handled key
+is present in the result iff it was present in the instance, holding what its handlers restore.
+(`forbid := false` is `C09_td_roundtrip_partial`.) -/
+theorem C09_td_roundtrip (un : UnFn) (unIsId : Option Ty → Bool) (st : StFn) (ci : Nat) (c : GCls)
+    (inst : List (Obj × Obj)) (rt : Attr → Obj → Obj) (forbid : Bool)
+    (hcons : ConsistentTD c.hc c.attrs = true)
+    (hid : ∀ t v, unIsId t = true → un t v = v)
+    (hreq : ∀ a ∈ c.attrs, tdIncluded c.hc a = true → a.required = true → (dlookup inst (.str a.name)).isSome = true)
+    (hfree : ∀ a ∈ c.attrs, tdIncluded c.hc a = true → ∀ r, (ovOf c.hc a).rename = some r → dlookup inst (.str r) = none)
+    (hrt : ∀ a ∈ c.attrs, tdIncluded c.hc a = true → (ovOf c.hc a).sh = none → ∀ v, dlookup inst (.str a.name) = some v →
+      st a.ty (un a.ty v) = .ok (rt a v))
+    (hnd : forbid = true → nodupPy (keysOf inst) = true)
+    (hdecl : forbid = true → ∀ k ∈ keysOf inst, ∃ a ∈ c.attrs, k = .str a.name) :
+    ∃ res, hstTDWith forbid st ci c (hunTD un unIsId c.hc c.attrs inst) = .ok (.dict res) ∧
+      ∀ a ∈ c.attrs, tdIncluded c.hc a = true →
+        dlookup res (.str a.name) = (dlookup inst (.str a.name)).map (rtWithHooks c.hc rt a) := by
+  cases forbid with
+  | false => exact C09_td_roundtrip_partial un unIsId st ci c inst rt hcons hid hreq hfree hrt
+  | true =>
+    obtain ⟨res, -, hres, hon⟩ := C09_td_roundtrip_outcome un unIsId st ci c inst rt hcons hid hreq hfree hrt (hnd rfl)
+    have hu : tdUndeclared c.attrs inst = [] := (tdUndeclared_eq_nil_iff c.attrs inst).mpr (hdecl rfl)
+    rw [hu] at hon
+    exact ⟨res, hon, hres⟩
+
+/-- the declaredness hypothesis of `C09_td_roundtrip` is necessary: with the option on, the round trip of an
+instance with an undeclared key fails (under the other hypotheses) -/
+theorem C09_td_roundtrip_forbid_iff (un : UnFn) (unIsId : Option Ty → Bool) (st : StFn) (ci : Nat) (c : GCls)
+    (inst : List (Obj × Obj)) (rt : Attr → Obj → Obj)
+    (hcons : ConsistentTD c.hc c.attrs = true)
+    (hid : ∀ t v, unIsId t = true → un t v = v)
+    (hreq : ∀ a ∈ c.attrs, tdIncluded c.hc a = true → a.required = true → (dlookup inst (.str a.name)).isSome = true)
+    (hfree : ∀ a ∈ c.attrs, tdIncluded c.hc a = true → ∀ r, (ovOf c.hc a).rename = some r → dlookup inst (.str r) = none)
+    (hrt : ∀ a ∈ c.attrs, tdIncluded c.hc a = true → (ovOf c.hc a).sh = none → ∀ v, dlookup inst (.str a.name) = some v →
+      st a.ty (un a.ty v) = .ok (rt a v))
+    (hnd : nodupPy (keysOf inst) = true) :
+    (∃ y, hstTDWith true st ci c (hunTD un unIsId c.hc c.attrs inst) = .ok y) ↔
+      ∀ k ∈ keysOf inst, ∃ a ∈ c.attrs, k = .str a.name := by
+  obtain ⟨res, -, -, hon⟩ := C09_td_roundtrip_outcome un unIsId st ci c inst rt hcons hid hreq hfree hrt hnd
+  rw [← tdUndeclared_eq_nil_iff, hon]
+  cases hu : tdUndeclared c.attrs inst with
+  | nil => simp
+  | cons x xs => simp
 
 /-- **Converter-level options** (`Converter(omit_if_default=, forbid_extra_keys=, type_overrides=)`) resolve to a
 per-class configuration (`convHc`: the override of an attribute is the entry of its type); keys and round trip
@@ -209,6 +381,91 @@ example : hstTDWith false C09Ex.idSt 0 (C09Ex.exTD [("a", { Ovr.neutral with ren
     = .ok (.dict [(.str "a", .int 1)]) := by rfl
 example : pyQuote "it's" = "\"it's\"" := by decide
 example : pyQuote "a\nb\\" = "'a\\nb\\\\'" := by decide
+
+/-- TypedDict `{a: int, b: NotRequired[int], c: int}` with `a → 'k'` and `c` omitted -/
+def C09Ex.exTD3 (detailed : Bool) : GCls :=
+  { kind := .typeddict, frozen := false,
+    hc := { ovs := [("a", { Ovr.neutral with rename := some "k" }), ("c", { Ovr.neutral with omitted := some true })],
+            useAlias := false, inclInitFalse := false, oid := false, forbid := true, detailed := detailed },
+    attrs := [C09Ex.exAttr "a" "a" .int .none true, { C09Ex.exAttr "b" "b" .int .none true with required := false },
+              C09Ex.exAttr "c" "c" .int .none true] }
+/-- an instance with declared keys only, and one with an undeclared string key and a non-string key -/
+def C09Ex.inst3 : List (Obj × Obj) := [(.str "a", .int 1), (.str "c", .int 3), (.str "b", .int 2)]
+def C09Ex.inst3x : List (Obj × Obj) := [(.str "a", .int 1), (.str "zzz", .int 9), (.str "c", .int 3), (.int 5, .int 6)]
+
+theorem C09Ex.exTD3_hfree (detailed : Bool) (inst : List (Obj × Obj)) (h : dlookup inst (.str "k") = none) :
+    ∀ a ∈ (C09Ex.exTD3 detailed).attrs, tdIncluded (C09Ex.exTD3 detailed).hc a = true →
+      ∀ r, (ovOf (C09Ex.exTD3 detailed).hc a).rename = some r → dlookup inst (.str r) = none := by
+  intro a ha _ r hr
+  simp only [C09Ex.exTD3, List.mem_cons, List.not_mem_nil, or_false] at ha
+  rcases ha with rfl | rfl | rfl
+  · have e : (ovOf (C09Ex.exTD3 detailed).hc (C09Ex.exAttr "a" "a" .int .none true)).rename = some "k" := by
+      cases detailed <;> decide
+    rw [e] at hr; cases hr; exact h
+  · have e : (ovOf (C09Ex.exTD3 detailed).hc { C09Ex.exAttr "b" "b" .int .none true with required := false }).rename = none := by
+      cases detailed <;> decide
+    rw [e] at hr; cases hr
+  · have e : (ovOf (C09Ex.exTD3 detailed).hc (C09Ex.exAttr "c" "c" .int .none true)).rename = none := by
+      cases detailed <;> decide
+    rw [e] at hr; cases hr
+
+theorem C09Ex.exTD3_hreq (detailed : Bool) (inst : List (Obj × Obj))
+    (h : (dlookup inst (.str "a")).isSome = true) :
+    ∀ a ∈ (C09Ex.exTD3 detailed).attrs, tdIncluded (C09Ex.exTD3 detailed).hc a = true → a.required = true →
+      (dlookup inst (.str a.name)).isSome = true := by
+  intro a ha hi hrq
+  simp only [C09Ex.exTD3, List.mem_cons, List.not_mem_nil, or_false] at ha
+  rcases ha with rfl | rfl | rfl
+  · exact h
+  · cases hrq
+  · exfalso; revert hi; cases detailed <;> decide
+
+/-- non-vacuity of `C09_td_keys` / `C09_td_keys_present`: the hypotheses hold for the instance with undeclared
+keys, and the output is as the three clauses say (`k` assigned, `a` and `c` popped, `zzz` and `5` kept) -/
+example : ConsistentTD (C09Ex.exTD3 true).hc (C09Ex.exTD3 true).attrs = true := by decide
+example : nodupPy (keysOf C09Ex.inst3x) = true := by decide
+example : hunTD C09Ex.idUn (fun _ => true) (C09Ex.exTD3 true).hc (C09Ex.exTD3 true).attrs C09Ex.inst3x
+    = .dict [(.str "zzz", .int 9), (.int 5, .int 6), (.str "k", .int 1)] := by decide
+example : ∃ out, hunTD C09Ex.idUn (fun _ => true) (C09Ex.exTD3 true).hc (C09Ex.exTD3 true).attrs C09Ex.inst3x = .dict out ∧
+    ∀ k : Obj, ((dlookup out k).isSome = true ↔
+      (∃ a ∈ (C09Ex.exTD3 true).attrs, tdIncluded (C09Ex.exTD3 true).hc a = true ∧ k = .str (tdKey (C09Ex.exTD3 true).hc a) ∧
+        (dlookup C09Ex.inst3x (.str a.name)).isSome = true) ∨
+      ((∀ a ∈ (C09Ex.exTD3 true).attrs, k ≠ .str a.name) ∧ (dlookup C09Ex.inst3x k).isSome = true)) :=
+  C09_td_keys_present C09Ex.idUn (fun _ => true) (C09Ex.exTD3 true).hc (C09Ex.exTD3 true).attrs C09Ex.inst3x
+    (by decide) (fun _ _ _ => rfl) (C09Ex.exTD3_hfree true _ (by decide)) (by decide)
+
+/-- non-vacuity of `C09_td_roundtrip` with the option on, both templates: all hypotheses hold for `inst3`
+(renamed, omitted and non-required keys present) and the round trip yields `{'b': 2, 'a': 1}` -/
+example (detailed : Bool) : ∃ res, hstTDWith true C09Ex.idSt 0 (C09Ex.exTD3 detailed)
+      (hunTD C09Ex.idUn (fun _ => true) (C09Ex.exTD3 detailed).hc (C09Ex.exTD3 detailed).attrs C09Ex.inst3) = .ok (.dict res) ∧
+    ∀ a ∈ (C09Ex.exTD3 detailed).attrs, tdIncluded (C09Ex.exTD3 detailed).hc a = true →
+      dlookup res (.str a.name) = (dlookup C09Ex.inst3 (.str a.name)).map (rtWithHooks (C09Ex.exTD3 detailed).hc (fun _ v => v) a) :=
+  C09_td_roundtrip C09Ex.idUn (fun _ => true) C09Ex.idSt 0 (C09Ex.exTD3 detailed) C09Ex.inst3 (fun _ v => v) true
+    (by cases detailed <;> decide) (fun _ _ _ => rfl) (C09Ex.exTD3_hreq detailed _ (by decide))
+    (C09Ex.exTD3_hfree detailed _ (by decide)) (fun _ _ _ _ _ _ => rfl) (fun _ => by decide)
+    (fun _ => (tdUndeclared_eq_nil_iff _ _).mp (by cases detailed <;> decide))
+example : hstTDWith true C09Ex.idSt 0 (C09Ex.exTD3 true)
+    (hunTD C09Ex.idUn (fun _ => true) (C09Ex.exTD3 true).hc (C09Ex.exTD3 true).attrs C09Ex.inst3)
+    = .ok (.dict [(.str "b", .int 2), (.str "a", .int 1)]) := by rfl
+example : hstTDWith true C09Ex.idSt 0 (C09Ex.exTD3 false)
+    (hunTD C09Ex.idUn (fun _ => true) (C09Ex.exTD3 false).hc (C09Ex.exTD3 false).attrs C09Ex.inst3)
+    = .ok (.dict [(.str "b", .int 2), (.str "a", .int 1)]) := by rfl
+
+/-- non-vacuity of `C09_td_roundtrip_outcome`, failing branch: the undeclared keys of `inst3x` are `zzz` and `5`,
+and both templates report exactly them -/
+example : tdUndeclared (C09Ex.exTD3 true).attrs C09Ex.inst3x = [.str "zzz", .int 5] := by decide
+example : hstTDWith true C09Ex.idSt 0 (C09Ex.exTD3 true)
+    (hunTD C09Ex.idUn (fun _ => true) (C09Ex.exTD3 true).hc (C09Ex.exTD3 true).attrs C09Ex.inst3x)
+    = .error (.cve [(none, .extra 0 [.str "zzz", .int 5])]) := by rfl
+example : hstTDWith true C09Ex.idSt 0 (C09Ex.exTD3 false)
+    (hunTD C09Ex.idUn (fun _ => true) (C09Ex.exTD3 false).hc (C09Ex.exTD3 false).attrs C09Ex.inst3x)
+    = .error (.extra 0 [.str "zzz", .int 5]) := by rfl
+example (detailed : Bool) : ¬ ∃ y, hstTDWith true C09Ex.idSt 0 (C09Ex.exTD3 detailed)
+    (hunTD C09Ex.idUn (fun _ => true) (C09Ex.exTD3 detailed).hc (C09Ex.exTD3 detailed).attrs C09Ex.inst3x) = .ok y := by
+  rw [C09_td_roundtrip_forbid_iff C09Ex.idUn (fun _ => true) C09Ex.idSt 0 (C09Ex.exTD3 detailed) C09Ex.inst3x (fun _ v => v)
+    (by cases detailed <;> decide) (fun _ _ _ => rfl) (C09Ex.exTD3_hreq detailed _ (by decide))
+    (C09Ex.exTD3_hfree detailed _ (by decide)) (fun _ _ _ _ _ _ => rfl) (by decide), ← tdUndeclared_eq_nil_iff]
+  cases detailed <;> decide
 
 /-- **F24 (recorded finding).**  TypedDict `{a, b}` with `a → 'b'`, `b → 'c'` is outside `ConsistentTD`, and the
 copy-then-patch hook loses a key: `{'a': 1, 'b': 2}` unstructures to `{'c': 2}` instead of `{'b': 1, 'c': 2}`. -/
